@@ -10,9 +10,9 @@ import (
 // of the antlr runtime.
 
 type ATNState struct {
-	Type  int // 0 invalid, 1 basic, 2 rule start, 3 block start, 4 plus block start, 5 star block start, 6 token start, 7 rule stop, 8 block end, 9 star loop back, 10 star loop entry, 11 plus loop back, 12 loop end
-	Rule  int
-	Extra int // loop back state (loop end) or end state (block starts), -1 otherwise
+	Type       int // 0 invalid, 1 basic, 2 rule start, 3 block start, 4 plus block start, 5 star block start, 6 token start, 7 rule stop, 8 block end, 9 star loop back, 10 star loop entry, 11 plus loop back, 12 loop end
+	Rule       int
+	Extra      int // loop back state (loop end) or end state (block starts), -1 otherwise
 	NonGreedy  bool
 	Precedence bool
 	Decision   int // decision number, -1 if none
